@@ -153,6 +153,7 @@ fn expr(e: &Expr) -> Value {
         Expr::Return(r) => json!({"k":"return","expr":r.expr.as_ref().map(|e| expr(e))}),
         Expr::Tuple(t) => json!({"k":"tuple","elems":t.elems.iter().map(expr).collect::<Vec<_>>()}),
         Expr::Array(t) => json!({"k":"array","elems":t.elems.iter().map(expr).collect::<Vec<_>>()}),
+        Expr::Repeat(r) => json!({"k":"repeat","line":line(r),"elem":expr(&r.expr),"len":expr(&r.len)}),
         Expr::Closure(c) => json!({"k":"closure","params":c.inputs.iter().map(pat).collect::<Vec<_>>(),"body":expr(&c.body)}),
         Expr::Try(t) => json!({"k":"try","line":line(t),"expr":expr(&t.expr)}),
         Expr::Assign(a) => json!({"k":"assign","l":expr(&a.left),"r":expr(&a.right)}),
